@@ -76,7 +76,10 @@ def ndarray2utpm(A):
         if isinstance(a, (algopy.UTPM, algopy.Function)):
             proto = a
             break
-    retval = zeros(shp,dtype=proto)
+    # (elements of an object array may be array-valued themselves: the result
+    # has the shape of the container followed by the shape of an element)
+    eshp = tuple(numpy.shape(proto)) if isinstance(proto, (algopy.UTPM, algopy.Function)) else ()
+    retval = zeros(tuple(shp) + eshp,dtype=proto)
     if isinstance(retval, algopy.UTPM):
         # the coefficient dtype that holds every element (not only the first
         # one); a traced buffer takes the elements as they are
